@@ -4,6 +4,7 @@ import (
 	"bytes"
 	"fmt"
 	"regexp"
+	"strconv"
 	"strings"
 )
 
@@ -29,6 +30,10 @@ func (d Dev) String() string {
 
 // expand turns the symbolic values of the menus into the real strings.
 func expand(v string) string {
+	if strings.HasPrefix(v, "@keymgmt-valid:") {
+		n, _ := strconv.Atoi(strings.TrimPrefix(v, "@keymgmt-valid:"))
+		return keyMgmt(n)
+	}
 	switch v {
 	case "@A5000":
 		return strings.Repeat("A", 5000)
@@ -311,6 +316,14 @@ func singleDevs(conv string) []Dev {
 				add(v[0], "set-hdr", i, "KeyMgmt", v[1])
 				add(v[0]+"-savp", "set-hdr2", i, "KeyMgmt", v[1])
 			}
+			// a complete, fresh MIKEY message: everything the secure profile needs except what the
+			// server's configuration (no TLS) or the negotiated protocol allows
+			tr := 0
+			if i >= 2 {
+				tr = i - 2
+			}
+			add("keymgmt-valid-plain-profile", "set-hdr", i, "KeyMgmt", fmt.Sprintf("@keymgmt-valid:%d", tr))
+			add("keymgmt-valid-savp", "set-hdr2", i, "KeyMgmt", fmt.Sprintf("@keymgmt-valid:%d", tr))
 		}
 		if s.Method == "ANNOUNCE" {
 			for _, m := range sdpMenu {
